@@ -636,6 +636,45 @@ func c11Alice(r *core.Result, c core.Case, env *core.Env, rejected func(string, 
 	})
 }
 
+// bobWCTranscript follows the prover of Bob's proof with check step by step (GG18 Fig. 10); with negU the first move on
+// the curve is u = -(alpha*G) instead of alpha*G.
+func bobWCTranscript(sess []byte, ec elliptic.Curve, pk *paillier.PublicKey, NT, h1, h2, c1, c2, x, y, r *big.Int, X *crypto.ECPoint, negU bool) *mta.ProofBobWC {
+	q := ec.Params().N
+	q3 := new(big.Int).Exp(q, big.NewInt(3), nil)
+	q7 := new(big.Int).Exp(q, big.NewInt(7), nil)
+	N2 := pk.NSquare()
+	alpha := common.GetRandomPositiveInt(rand.Reader, q3)
+	rho := common.GetRandomPositiveInt(rand.Reader, new(big.Int).Mul(q, NT))
+	sigma := common.GetRandomPositiveInt(rand.Reader, new(big.Int).Mul(q, NT))
+	tau := common.GetRandomPositiveInt(rand.Reader, new(big.Int).Mul(q3, NT))
+	rhoPrm := common.GetRandomPositiveInt(rand.Reader, new(big.Int).Mul(q3, NT))
+	beta := common.GetRandomPositiveRelativelyPrimeInt(rand.Reader, pk.N)
+	gamma := common.GetRandomPositiveInt(rand.Reader, q7)
+	u := crypto.ScalarBaseMult(ec, new(big.Int).Mod(alpha, q))
+	if negU {
+		u, _ = crypto.NewECPoint(ec, u.X(), new(big.Int).Sub(ec.Params().P, u.Y()))
+	}
+	pw := func(b1, e1, b2, e2, m *big.Int) *big.Int {
+		v := new(big.Int).Exp(b1, e1, m)
+		return v.Mul(v, new(big.Int).Exp(b2, e2, m)).Mod(v, m)
+	}
+	z := pw(h1, x, h2, rho, NT)
+	zPrm := pw(h1, alpha, h2, rhoPrm, NT)
+	tt := pw(h1, y, h2, sigma, NT)
+	v := pw(c1, alpha, pk.Gamma(), gamma, N2)
+	v.Mul(v, new(big.Int).Exp(beta, pk.N, N2)).Mod(v, N2)
+	w := pw(h1, gamma, h2, tau, NT)
+	eHash := common.SHA512_256i_TAGGED(sess, append(pk.AsInts(), X.X(), X.Y(), c1, c2, u.X(), u.Y(), z, zPrm, tt, v, w)...)
+	e := common.RejectionSample(q, eHash)
+	s := new(big.Int).Exp(r, e, pk.N)
+	s.Mul(s, beta).Mod(s, pk.N)
+	s1 := new(big.Int).Add(new(big.Int).Mul(e, x), alpha)
+	s2 := new(big.Int).Add(new(big.Int).Mul(e, rho), rhoPrm)
+	t1 := new(big.Int).Add(new(big.Int).Mul(e, y), gamma)
+	t2 := new(big.Int).Add(new(big.Int).Mul(e, sigma), tau)
+	return &mta.ProofBobWC{ProofBob: &mta.ProofBob{Z: z, ZPrm: zPrm, T: tt, V: v, W: w, S: s, S1: s1, S2: s2, T1: t1, T2: t2}, U: u}
+}
+
 func c11Bob(r *core.Result, c core.Case, env *core.Env, sess []byte, rejected func(string, func() bool), control func(string, func() bool)) {
 	a, err := paramSet(env, c.P.Int("a"))
 	if err != nil {
@@ -680,6 +719,21 @@ func c11Bob(r *core.Result, c core.Case, env *core.Env, sess []byte, rejected fu
 			rejected("bob-wc: X = ("+what+")G", func() bool {
 				pf, err := mta.ProveBobWC(sess, ec, pk, NT, h1, h2, c1, c2, x0, y0, rr, Xbad, rand.Reader)
 				return err == nil && pf.Verify(sess, ec, pk, NT, h1, h2, c1, c2, Xbad)
+			})
+		}
+		// a prover that knows x claims the point -(x*G) and publishes u = -(alpha*G): every equation except the one on
+		// the curve holds, and g^s1 differs from X^e*u only in the sign of y
+		control("bob-wc (transcript builder)", func() bool {
+			return bobWCTranscript(sess, ec, pk, NT, h1, h2, c1, c2, x0, y0, rr, X, false).Verify(sess, ec, pk, NT, h1, h2, c1, c2, X)
+		})
+		negX, err := crypto.NewECPoint(ec, X.X(), new(big.Int).Sub(ec.Params().P, X.Y()))
+		if err == nil {
+			rejected("bob-wc: X = -(xG), u = -(alpha G), everything else honest", func() bool {
+				return bobWCTranscript(sess, ec, pk, NT, h1, h2, c1, c2, x0, y0, rr, negX, true).Verify(sess, ec, pk, NT, h1, h2, c1, c2, negX)
+			})
+			rejected("bob-wc: X = -(xG) with the library prover", func() bool {
+				pf, err := mta.ProveBobWC(sess, ec, pk, NT, h1, h2, c1, c2, x0, y0, rr, negX, rand.Reader)
+				return err == nil && pf.Verify(sess, ec, pk, NT, h1, h2, c1, c2, negX)
 			})
 		}
 		// proof without check shown where the check is required and vice versa
